@@ -157,7 +157,7 @@ class QueueingScenario(Scenario):
 
     def __init__(self, **params: Any) -> None:
         super().__init__(**params)
-        self.events = [tuple(e) for e in params['events']]   # (at, uid, dur)
+        self.events = [tuple(e) for e in params['events']]   # (at, uid, dur[, 'D' = the object is deleted: a DELETED event])
         self.limit = params.get('limit')
         self.cancel_at = params.get('cancel_at')
         self.cancel2 = params.get('cancel2', False)
@@ -188,6 +188,8 @@ class QueueingScenario(Scenario):
         async def processor(*, raw_event: Any, **kwargs: Any) -> None:
             obj = raw_event['object']
             seq = obj['spec']['seq']
+            if raw_event['type'] == 'DELETED':    # it carries the last state of the object: told apart by its version
+                seq = env.memo['deleted_rv'][obj['metadata']['resourceVersion']]
             uid = obj['metadata'].get('uid') or obj['metadata']['name']
             env.log('proc-start', seq=seq, uid=uid, rv=obj['metadata']['resourceVersion'])
             running = env.memo.setdefault('running', set())
@@ -196,8 +198,8 @@ class QueueingScenario(Scenario):
             if len({s for s in running if self.events[s][1] == self.events[seq][1]}) > 1:
                 env.log('overlap', seq=seq, running=sorted(running))
             try:
-                if obj['spec']['dur']:
-                    await asyncio.sleep(obj['spec']['dur'])
+                if self.events[seq][2]:
+                    await asyncio.sleep(self.events[seq][2])
                 env.log('proc-end', seq=seq, uid=uid)
             finally:
                 running.discard(seq)
@@ -224,9 +226,13 @@ class QueueingScenario(Scenario):
         seen: set[str] = set()
         actions: list[UserAction] = []
 
-        def mk(i: int, uid: str, dur: float, first: bool) -> Any:
+        def mk(i: int, uid: str, dur: float, first: bool, delete: bool = False) -> Any:
             def fn(e: Env) -> None:
-                if first:
+                if delete:
+                    e.world.delete(KEX, 'ns', uid)
+                    gone = e.world.events[KEX.key][-1][2]
+                    e.memo.setdefault('deleted_rv', {})[gone['metadata']['resourceVersion']] = i
+                elif first:
                     e.world.create(KEX, 'ns', uid, {'spec': {'seq': i, 'dur': dur}})
                     if self.nouid and uid == 'b':
                         # an object without a uid (v1/ComponentStatus-like): the fallback key.
@@ -242,9 +248,11 @@ class QueueingScenario(Scenario):
             return fn
 
         items: list[tuple[float, int, str, Any]] = []
-        for i, (at, uid, dur) in enumerate(self.events):
-            items.append((at, i, f'ev{i}', mk(i, uid, dur, uid not in seen)))
+        for i, (at, uid, dur, *flag) in enumerate(self.events):
+            items.append((at, i, f'ev{i}', mk(i, uid, dur, uid not in seen, delete=bool(flag))))
             seen.add(uid)
+            if flag:
+                seen.discard(uid)     # the next event of this name is a re-creation
         if self.cancel_at is not None:
             items.append((self.cancel_at, 10_000, 'cancel', lambda e: (e.log('cancel'), self.task.cancel())))
             if self.cancel2:
@@ -294,7 +302,7 @@ class QueueingScenario(Scenario):
         best: list[Violation] | None = None
         for drop in range(len(optional) + 1):
             delivered = [i for i in sorted(arrivals) if i not in optional[len(optional) - drop:]]
-            evs = [(arrivals[i], self.events[i][1], self.events[i][2]) for i in delivered]
+            evs = [(arrivals[i], self.events[i][1], self.events[i][2]) for i in delivered]   # a DELETED event is an event like any other
             for ref in references(evs, self.limit, cancel_t):
                 mism = self._compare(env, delivered, ref, starts, ends, order)
                 if not mism:
@@ -364,6 +372,12 @@ def scenarios(tier: str) -> list[QueueingScenario]:
     # a third object with limit 2
     for g1, g2, d in itertools.product([0.0, 0.25], [0.0, 1.0], [0.25, 1.5]):
         out.append(QueueingScenario(events=[(0.0, 'a', d), (g1, 'b', d), (g1 + g2, 'c', 0.25), (g1 + g2 + 1.0, 'a', 0.0)], limit=2))
+    # a uid-less object (keyed by kind/name/namespace/creation second) is deleted and re-created within that second: its DELETED
+    # event, slow or quick to process, is followed by further events of the same key - during, at the end of, and after its processing
+    for d_del, gap, d_next in itertools.product([0.0, 0.25, 1.5], [0.0, 0.25, 0.5], [0.0, 0.25]):
+        for lim in (None, 1):
+            out.append(QueueingScenario(events=[(0.0, 'a', 0.25), (0.0, 'b', 0.0), (0.25, 'b', d_del, 'D'), (0.25 + gap, 'b', d_next)], limit=lim, nouid=True))
+        out.append(QueueingScenario(events=[(0.0, 'b', 0.25), (0.0, 'b', d_del, 'D'), (gap, 'b', d_next), (gap + 0.25, 'b', 0.0)], limit=None, nouid=True))
     # cancellation (single and double) while workers are busy / idle / waiting for a slot
     for evs in ([(0.0, 'a', 0.25), (0.0, 'a', 0.25)], [(0.0, 'a', 1.5), (0.25, 'b', 0.25), (0.25, 'a', 0.25)],
                 [(0.0, 'a', 1.5), (0.0, 'a', 1.5)], [(0.0, 'a', 0.25), (0.0, 'b', 1.5), (0.25, 'b', 0.25)]):
